@@ -341,6 +341,14 @@ def accumulators(ctx, rule, modules, cls, spec, axioms=None):
             else:
                 x = params.get(args[0])
                 prev = getattr(rs, 'prev_fld', {}).get(F, f0)
+                # first observation (the count was 0): whatever the sentinel, the extremum must now be the observation itself
+                cF = next((e[1] for e in spec if e[0] == 'count'), None)
+                n0 = old.get(cF) if cF else None
+                if n0 is not None and active is not False:
+                    niv = rs.iv(n0)
+                    if niv.is_point() and niv.lo == 0.0 and not (f1 == x or rs.rel.possible(f1, x) == {'='}):
+                        bad.append(f'after the first observation {F} is `{_show(rs, f1)}`, not the observation (the initial sentinel is not an identity element of {kind})')
+                        continue
                 if f1 == x or rs.rel.possible(f1, x) == {'='}:
                     # took the observation: it must be strictly on the right side of what was there before
                     # (prev is the field value before this store: the old extremum or the +/-inf of the first observation)
